@@ -802,6 +802,8 @@ def _field_problem(f, kind, v, u, PixCoord, SkyCoord):
         if not isinstance(v, u.Quantity) or not v.isscalar or \
                 v.unit.physical_type != 'angle':
             p = f'{f}={v!r} is not a scalar angle'
+        elif not math.isfinite(v.value):
+            p = f'{f}={v!r} is not finite'
     elif kind == 'pixpos':
         if not isinstance(v, PixCoord) or not v.isscalar:
             p = f'{f}={v!r} is not a scalar PixCoord'
@@ -988,6 +990,11 @@ class Machine:
             v = params['vertices']
             params['vertices'] = PixCoord(v.x - ox, v.y - oy)
             extra['origin'] = PixCoord(ox, oy)
+        if 'angle' in params and toks.get('angle') == 0 and \
+                self.mode == 'c16' and rng.chance(0.6):
+            # the constructor's own default (0 deg): regions built with it
+            # are as independent of each other as any others
+            del params['angle']
         try:
             obj = getattr(regions, cls)(
                 **params, **extra, meta=build({'t': 'meta', 'v': meta}),
@@ -1113,6 +1120,8 @@ class Machine:
         re-expression), both ways round, and the original is unchanged."""
         cells = c16_cells()
         cls, f, kind, how = cells[op['cell'] % len(cells)]
+        if how == 'default_twice':
+            return self._default_twice(cls, rng)
         obj, m = self.new_simple(rng, cls)
         a = self.add_slot('region', obj, m)
         new_tok = new_dict = None
@@ -1189,6 +1198,49 @@ class Machine:
         self.check_unchanged({id(mc), id(mc.meta), id(mc.visual)},
                              'V1-independence', f'{how}({f}) on a copy of '
                              f'slot {a}')
+
+    def _default_twice(self, cls, rng):
+        """Two regions of one class built with the constructor's default
+        angle are as independent as any two regions: editing one (the
+        everyday ``region.angle += x``) shows in neither the other nor in a
+        region built afterwards."""
+        import astropy.units as u
+        import regions
+        made = []
+        for _ in range(2):
+            toks = gen.draw_tokens(rng, cls)
+            toks['angle'] = 0
+            params = {g: mk_value(k, toks[g]) for g, k in gen.ALL_CLASSES[cls]
+                      if g != 'angle'}
+            try:
+                o = getattr(regions, cls)(**params)
+            except Exception as exc:
+                raise ValidRejected(cls, f'{cls}(default angle) raised '
+                                    f'{exc!r}')
+            mm = MRegion(cls, toks, MDict('meta'), MDict('visual'))
+            made.append((self.add_slot('region', o, mm), o, mm, params))
+        (i1, o1, m1, p1), (i2, o2, m2, _) = made
+        step = rng.pick([10.0, 90.0, -30.0]) * u.deg
+        o1.angle += step
+        self.nmut += 1
+        m1.tok['angle'] = ['mut', 0, self.nmut]
+        self.ev(slot=i1, cls=cls, what=f'angle += {step}')
+        self.state('default_twice', cls)
+        self.check_unchanged({id(m1)}, 'V1-independence',
+                             f'{cls}: angle += {step} on slot {i1} (both '
+                             'built with the default angle)')
+        try:
+            o3 = getattr(regions, cls)(**p1)
+            a3 = o3.angle
+        except Exception as exc:
+            self.violation('V0-valid-construction-raises', f'{cls}(default '
+                           f'angle) after angle += on another region: '
+                           f'{exc!r}', cls=cls)
+            return
+        if not same_value(a3, 0.0 * u.deg):
+            self.violation('V1-independence', f'{cls} built with the default '
+                           f'angle AFTER angle += {step} on another region '
+                           f'has angle {a3!r}', cls=cls)
 
     def op_copy(self, op, rng):
         a = self.pick(op['s'], lambda s: s.kind == 'region')
@@ -1372,6 +1424,16 @@ class Machine:
                 while target_m.compound:
                     side = rng.pick(['region1', 'region2'])
                     path.append(side)
+                    if not hasattr(target_o, side):
+                        # the object does not have the structure of what
+                        # it was built (or copied) from
+                        self.violation(
+                            'V2-copy-field', f'slot {a}: '
+                            f'{".".join(path[:-1]) or "the region"} is a '
+                            f'{_cname(target_o)}, a compound region was '
+                            f'expected there ({m.cls})', cls=m.cls)
+                        self.ev(slot=a, outcome='structure-mismatch')
+                        return
                     target_o = getattr(target_o, side)
                     target_m = target_m.r1 if side == 'region1' \
                         else target_m.r2
@@ -2061,11 +2123,85 @@ class Machine:
                 self.violation('A3-readback', f'{cls}.{f} reads back '
                                f'{got!r}, stored {v!r}', cls=cls, field=f)
 
+    def _augassign(self, a, rng):
+        """``region.param <op>= x``: an assignment like any other - what it
+        computes is validated, and if it is refused the region is as before
+        (parameter objects that implement the in-place operators are edited
+        before the descriptor gets to see the result)."""
+        import astropy.units as u
+        from regions import PixCoord
+        S = self.slots[a]
+        m, obj, cls = S.model, S.obj, S.model.cls
+        cands = [(f, k) for f, k in m.fields()
+                 if k in ('size', 'asize', 'angle', 'pixpos', 'pixverts')
+                 and f not in m.tainted]
+        if not cands:
+            return
+        f, kind = rng.pick(cands)
+        cur = getattr(obj, f)
+        if kind in ('size', 'asize'):
+            name, fn = rng.pick([
+                ('imul-neg', lambda v: operator.imul(v, -1)),
+                ('imul-zero', lambda v: operator.imul(v, 0)),
+                ('isub-self', lambda v: operator.isub(v, v)),
+                ('imul-nan', lambda v: operator.imul(v, float('nan'))),
+                ('itruediv-zero', lambda v: operator.itruediv(v, 0.0))])
+        elif kind == 'angle':
+            name, fn = rng.pick([
+                ('imul-nan', lambda v: operator.imul(v, float('nan'))),
+                ('iadd-seconds', lambda v: operator.iadd(v, 5 * u.s)),
+                ('imul-inf', lambda v: operator.imul(v, float('inf')))])
+        else:
+            name, fn = rng.pick([
+                ('iadd-array', lambda v: operator.iadd(
+                    v, PixCoord(np.array([[1.0, 2.0], [3.0, 4.0]]),
+                                np.array([[3.0, 4.0], [5.0, 6.0]])))),
+                ('isub-array', lambda v: operator.isub(
+                    v, PixCoord(np.array([[1.0, 2.0], [3.0, 4.0]]),
+                                np.array([[3.0, 4.0], [5.0, 6.0]])))),
+                ('iadd-number', lambda v: operator.iadd(v, 5)),
+                ('isub-tuple', lambda v: operator.isub(v, (1, 2)))])
+        value = f'augassign:{kind}:{name}'
+        what = f'{cls}.{f} {name}'
+        # the operator itself (numpy / Python arithmetic on a copy of the
+        # value) may fail before the region is involved at all: only the
+        # documented exception classes are of interest then
+        try:
+            import warnings
+            with warnings.catch_warnings():
+                warnings.simplefilter('ignore')
+                fn(copy.deepcopy(cur))
+        except ALLOWED_EXC:
+            pass
+        except Exception:
+            return
+
+        def call():
+            import warnings
+            with warnings.catch_warnings():
+                warnings.simplefilter('ignore')      # numpy: divide by zero
+                setattr(obj, f, fn(getattr(obj, f)))
+        out, _ = self.c17_outcome(call, True, what, cls, f, value, target=a)
+        self.ev(slot=a, cls=cls, field=f, value=value, invalid=True,
+                outcome=out)
+        if out == 'wrongly-accepted':
+            m.tainted.add(f)
+        elif out == 'rejected':
+            # (if the parameter object was edited in place all the same, the
+            # region is outside its domain from here on)
+            if domain_problems(obj):
+                m.tainted.add(f)
+                for inner, outer in gen.ANNULUS_PAIRS.get(cls, []):
+                    if f in (inner, outer):
+                        m.tainted.update((inner, outer, inner + '/' + outer))
+
     def op_setattr(self, op, rng):
         a = self.pick(op['s'], lambda s: s.kind == 'region'
                       and not s.model.compound)
         if a is None:
             return
+        if rng.chance(0.12):
+            return self._augassign(a, rng)
         S = self.slots[a]
         m, obj = S.model, S.obj
         cls = m.cls
@@ -3136,6 +3272,8 @@ def c16_cells():
                     hows.append('unit')
                 if kind in ('pixpos', 'pixverts'):
                     hows += ['tol_in', 'tol_out']
+                if f == 'angle':
+                    hows.append('default_twice')
                 for how in hows:
                     _C16_CELLS.append((cls, f, kind, how))
     return _C16_CELLS
